@@ -444,9 +444,10 @@ func layeredElectionSchedule(rng *rand.Rand, seed int64) ([][2]int, string) {
 		}
 	}
 	type probeRes struct {
-		d     *Dag
-		x     *DagExec
-		votes map[string]map[int][]voteInfo // subject -> round -> votes
+		d      *Dag
+		x      *DagExec
+		votes  map[string]map[int][]voteInfo // subject -> round -> votes
+		rounds map[string]int                // subject -> its round
 	}
 	probe := func(s state) *probeRes {
 		d := genDagFromShapePerm(rand.New(rand.NewSource(seed)), seed, s.sched, 4, ident)
@@ -455,10 +456,17 @@ func layeredElectionSchedule(rng *rand.Rand, seed int64) ([][2]int, string) {
 			x.close()
 			return nil
 		}
-		pr := &probeRes{d: d, x: x, votes: map[string]map[int][]voteInfo{}}
-		if r1, err := x.Store.GetRound(1); err == nil {
-			for _, w := range r1.Witnesses() {
-				pr.votes[w] = subjectVotes(x, d, w, 1)
+		pr := &probeRes{d: d, x: x, votes: map[string]map[int][]voteInfo{}, rounds: map[string]int{}}
+		last := x.Store.LastRound()
+		for r := last - 6; r <= last; r++ {
+			if r < 1 {
+				continue
+			}
+			if ri, err := x.Store.GetRound(r); err == nil {
+				for _, w := range ri.Witnesses() {
+					pr.votes[w] = subjectVotes(x, d, w, r)
+					pr.rounds[w] = r
+				}
 			}
 		}
 		return pr
@@ -496,18 +504,30 @@ func layeredElectionSchedule(rng *rand.Rand, seed int64) ([][2]int, string) {
 		}
 		return false
 	}
-	// L1: round-2 witnesses of all four, split two/two on some round-1 witness
-	if !try("L1", 1500, func(s *state) { segment(s, 14+rng.Intn(14), all, -1, 0.3+0.4*rng.Float64()) }, func(pr *probeRes) bool {
+	// L1: grow the history event by event until some witness (of round R) has the
+	// next round's four witnesses split two/two on it and nothing beyond
+	R := 0
+	stale1 := 0.3 + 0.4*rng.Float64()
+	for it := 0; it < 90 && subject == ""; it++ {
+		segment(&cur, 1, all, -1, stale1)
+		if len(cur.sched) < 12 {
+			continue
+		}
+		pr := probe(cur)
+		if pr == nil {
+			continue
+		}
 		for w, m := range pr.votes {
-			if len(m[2]) == 4 && len(m[3]) == 0 {
-				if y, nn, _ := count(m[2]); y == 2 && nn == 2 {
-					subject = w
-					return true
+			r := pr.rounds[w]
+			if len(m[r+1]) == 4 && len(m[r+2]) == 0 {
+				if y, nn, _ := count(m[r+1]); y == 2 && nn == 2 {
+					subject, R = w, r
 				}
 			}
 		}
-		return false
-	}) {
+		pr.x.close()
+	}
+	if subject == "" {
 		return nil, "L1"
 	}
 	subjIdx := -1
@@ -521,12 +541,18 @@ func layeredElectionSchedule(rng *rand.Rand, seed int64) ([][2]int, string) {
 		}
 		pr.x.close()
 	}
-	votesOf := func(pr *probeRes) map[int][]voteInfo { return pr.votes[pr.d.Events[subjIdx].Hash] }
+	votesOf := func(pr *probeRes) map[int][]voteInfo {
+		h := pr.d.Events[subjIdx].Hash
+		if m, ok := pr.votes[h]; ok {
+			return m
+		}
+		return subjectVotes(pr.x, pr.d, h, R)
+	}
 	// L2: round-3 witnesses of all four: one yes, three no
 	if !try("L2", 600, func(s *state) { segment(s, 6+rng.Intn(12), all, -1, 0.3+0.5*rng.Float64()) }, func(pr *probeRes) bool {
 		m := votesOf(pr)
-		if len(m[3]) == 4 && len(m[4]) == 0 {
-			y, nn, _ := count(m[3])
+		if len(m[R+2]) == 4 && len(m[R+3]) == 0 {
+			y, nn, _ := count(m[R+2])
 			return y == 1 && nn == 3
 		}
 		return false
@@ -537,15 +563,15 @@ func layeredElectionSchedule(rng *rand.Rand, seed int64) ([][2]int, string) {
 	D := -1
 	if !try("L3", 1500, func(s *state) { segment(s, 6+rng.Intn(12), all, -1, 0.3+0.5*rng.Float64()) }, func(pr *probeRes) bool {
 		m := votesOf(pr)
-		if len(m[4]) != 4 || len(m[5]) != 0 {
+		if len(m[R+3]) != 4 || len(m[R+4]) != 0 {
 			return false
 		}
-		_, nn, dec := count(m[4])
+		_, nn, dec := count(m[R+3])
 		if dec != 1 || nn != 4 {
 			return false
 		}
 		var y0 voteInfo
-		for _, v := range m[4] {
+		for _, v := range m[R+3] {
 			if v.Decides {
 				y0 = v
 			}
@@ -571,7 +597,7 @@ func layeredElectionSchedule(rng *rand.Rand, seed int64) ([][2]int, string) {
 	// L4: the others reach round 6 without the decider's creator being heard
 	if !try("L4", 300, func(s *state) { segment(s, 16+rng.Intn(14), rest, D, 0.15) }, func(pr *probeRes) bool {
 		m := votesOf(pr)
-		for _, v := range m[6] {
+		for _, v := range m[R+5] {
 			if v.Creator != D {
 				return true
 			}
